@@ -257,7 +257,8 @@ theorem vote_oscillates :
     Vote.fit dicycle3 [1,1,1] {} 100 = some ([1,2,1], 3) := by
   refine ⟨by decide +kernel, by decide +kernel, by decide +kernel⟩
 
-/-- ★ **propagation_terminates** (F18, repaired loop).  With `n_iter = -1` (no bound on the number of sweeps)
+/-- ★ **propagation_terminates** (F18, the loop with the seen-set test and *no* bound on the number of sweeps; the code
+    additionally caps a negative `n_iter` at `n + 1` sweeps, see `propagation_default_terminates`).  Without any bound
     `Propagation.fit` terminates on every graph, directed or not: the configurations `labels[index_remain]` are
     lists of a fixed length over the initial labels, finitely many, and the loop stops as soon as one comes
     back.  The stated fuel is that number plus one; `vote_oscillates` shows that stopping only on "a sweep
@@ -268,6 +269,18 @@ theorem propagation_terminates (c : Csr Rat) (hw : ∀ p, 0 ≤ c.data.getD p 0)
     Vote.fit c values a
       ((Vote.allLists (Vote.start values a.sigma).1 (Vote.start values a.sigma).2.length).length + 1) ≠ none :=
   Vote.fit_terminates c hw values a hsig hn
+
+/-- ★ **propagation_default_terminates** (the loop as the code runs it since be74e3a8): a negative `n_iter` allows
+    `n + 1` sweeps, `n` the number of nodes, so `fit` returns with fuel `n + 2` on every input, after at most `n + 1`
+    sweeps (`propLoop_sweeps`); the test on configurations already seen is unchanged (`propagation_stop_reason`).
+    `propagation_terminates` above is the statement about the loop without that cap. -/
+theorem propagation_default_terminates (c : Csr Rat) (values : List Int) (a : Vote.PropArgs) (nIterArg : Option Nat)
+    (ha : a.nIter = some (Vote.sweepLimit nIterArg values.length)) :
+    Vote.fit c values a (Vote.sweepLimit nIterArg values.length + 1) ≠ none :=
+  Vote.fit_default_terminates c values a nIterArg ha
+
+example : Vote.fit dicycle3 [1,1,1] { nIter := some (Vote.sweepLimit none 3) } 5 = some ([1,2,1], 3) := by
+  decide +kernel
 
 /-- the loop of `fit` makes at most `n_iter` sweeps, and at most `fuel` -/
 theorem propLoop_sweeps (step key : List Int → List Int) :
